@@ -43,7 +43,11 @@ class UTCTimeHandler(RequestHandlerBase):
             return flask.make_response('Invalid CGI parameters', 400)
         now = datetime.datetime.now(tz=UTC())
         if options.clockDrift:
-            now -= datetime.timedelta(seconds=options.clockDrift)
+            try:
+                now -= datetime.timedelta(seconds=options.clockDrift)
+            except OverflowError:
+                return flask.make_response(
+                    f'Invalid clock drift {options.clockDrift}', 400)
         headers = {
             'Content-Type': 'text/plain',
             'Date': now.strftime(r'%a, %d %b %Y %H:%M:%S %Z'),
